@@ -51,6 +51,19 @@ def generate():
                         if isinstance(c, ast.Call) and isinstance(c.func, ast.Attribute) and c.func.attr == "add"]
                 if adds:
                     creators[node.name] = adds[0]
+                else:
+                    # one level of delegation: `return _helper(<set>)` where the helper adds its parameter's lock
+                    rets = [r.value for r in ast.walk(node) if isinstance(r, ast.Return) and isinstance(r.value, ast.Call)]
+                    for call in rets:
+                        if isinstance(call.func, ast.Name) and len(call.args) == 1 and isinstance(call.args[0], ast.Name):
+                            helper = [f for f in ast.walk(tree) if isinstance(f, ast.FunctionDef) and f.name == call.func.id]
+                            if helper and len(helper[0].args.args) == 1:
+                                param = helper[0].args.args[0].arg
+                                h_adds = [ast.unparse(c.func.value) for c in ast.walk(helper[0])
+                                          if isinstance(c, ast.Call) and isinstance(c.func, ast.Attribute)
+                                          and c.func.attr == "add"]
+                                if h_adds == [param]:
+                                    creators[node.name] = call.args[0].id
         body += "/-- creator function ↦ the weak set it registers the new lock in -/\n"
         body += "def creators : List (String × String) := [%s]\n\n" % ", ".join(
             "(%s, %s)" % (lean_str(k), lean_str(v)) for k, v in sorted(creators.items()))
